@@ -40,6 +40,7 @@ func main() {
 	noEv := flag.Bool("noevidence", false, "do not write evidence (used for variant sub-runs)")
 	list := flag.Bool("list", false, "list properties")
 	verbose := flag.Bool("v", false, "print every obligation")
+	gen := flag.Bool("gentables", false, "regenerate tables/*.json from the current tree (maintainer action; review the diff)")
 	flag.Parse()
 
 	if *list {
@@ -60,6 +61,20 @@ func main() {
 	if *verif == "" {
 		exe, _ := os.Executable()
 		*verif = filepath.Dir(filepath.Dir(exe))
+	}
+	verifDirGlobal = *verif
+	if *gen {
+		c, err := Load(*repo)
+		if err != nil {
+			fmt.Fprintln(os.Stderr, err)
+			os.Exit(2)
+		}
+		if err := genTables(c, *verif); err != nil {
+			fmt.Fprintln(os.Stderr, err)
+			os.Exit(2)
+		}
+		fmt.Println("tables regenerated")
+		return
 	}
 	seed := 0
 	if s := os.Getenv("VERIF_SEED"); s != "" {
